@@ -1,5 +1,5 @@
 (* C09 - an inbound QoS 2 message is delivered to the application exactly once. *)
-From Poster Require Import Model.Client Proofs.ClientP Proofs.HandshakeP.
+From Poster Require Import Model.Client Proofs.ClientP Proofs.HandshakeP Proofs.StreamP.
 
 (* a re-delivery - the identifier was answered with PUBREC and its PUBREL has not arrived: PUBREC
    is written again, no stream receives anything, the awaited set is unchanged *)
@@ -30,3 +30,24 @@ Theorem C09_release : forall (s : sys) (p : rxpkt), rk p = KPubrel -> wbudget s 
   wire_ev (fst (handle_packet s p)) = wire_ev s ++ enc_pubcomp (r_pid p).
 Proof. exact q2_release. Qed.
 Print Assumptions C09_release.
+
+(* ---- every sequence of deliveries, re-deliveries and releases --------------------------------------------
+   The set of identifiers awaiting PUBREL evolves exactly as the property says (spec_aw_step: a new QoS 2
+   PUBLISH adds its identifier, a PUBREL removes it, nothing else touches it), and the stream receives a QoS 2
+   PUBLISH iff its identifier is NOT awaiting release at that moment (spec_deliveries).  Hence each distinct
+   message - a PUBLISH up to the PUBREL of its identifier - reaches the stream exactly once, and a PUBLISH
+   reusing the identifier after the PUBREL is a new message. *)
+Theorem C09_exactly_once : forall (ps : list rxpkt) (s : sys) (sid j : N) (st : strm),
+  stream_state s sid j st -> sub_inj s sid j -> wbudget s = None ->
+  let s' := take_packets s ps in
+  stream_state s' sid j (mkst (st_buf st ++ spec_deliveries (await_rel (c s)) sid ps) (st_sender st) true (st_taken st)) /\
+  await_rel (c s') = fold_left spec_aw_step ps (await_rel (c s)).
+Proof. exact stream_history. Qed.
+Print Assumptions C09_exactly_once.
+
+(* what the specification says on the property's own scenario: deliver, re-deliver (DUP), release, reuse *)
+Example C09_spec_scenario :
+  let pk dup pl := mkrx KPublish false dup false 2 7 0 [(11, VV 1 1)] [116] pl [] in
+  let rel := mkrx KPubrel false false false 0 7 0 [] [] [] [] in
+  spec_deliveries [] 1 [pk false [65]; pk true [65]; pk true [65]; rel; pk false [66]; pk true [66]] = [pk false [65]; pk false [66]].
+Proof. vm_compute. reflexivity. Qed.
